@@ -38,6 +38,9 @@ def _coerce(terms, ctype):
             # exact values that a double cannot hold: thirds, and integers beyond 2**53
             "fraction_thirds": lambda v: fractions.Fraction(int(round(4 * v)), 9),
             "bigint": lambda v: int(round(2 * v)) * (2 ** 53 + 1),
+            # doubles a hair off an integer / half-integer: multiples of 2**-40, so that every sum the library and the
+            # oracle form is exact in double arithmetic and the enclosure can be compared without tolerance
+            "dyadic_up": lambda v: float(v) + 2.0 ** -40, "dyadic_down": lambda v: float(v) - 2.0 ** -40,
             "np_float64": np.float64, "np_float32": np.float32}[ctype]
     return {k: conv(v) for k, v in terms.items()}
 
@@ -45,7 +48,7 @@ def _coerce(terms, ctype):
 def _gen_numeric_types(ctx):
     rng = ctx.rng("c15.types")
     n = ctx.pick(60, 1500)
-    for ctype in ("fraction", "np_int64", "np_float64", "np_float32", "fraction_thirds", "bigint"):
+    for ctype in ("fraction", "np_int64", "np_float64", "np_float32", "fraction_thirds", "bigint", "dyadic_up", "dyadic_down"):
         for spin in (False, True):
             yield {"fn": "puso" if spin else "pubo", "type": "dict", "terms": {(): 2.5}, "ctype": ctype}
             yield {"fn": "puso" if spin else "pubo", "type": "dict", "terms": {('a',): -1.5, ('a', 'b'): 2, (): 1}, "ctype": ctype}
@@ -76,7 +79,7 @@ def check_extrema(case):
     vs = variables_of(terms)
     vals = [peval(terms, x) for x in assignments(vs, spin)]
     # exact number types are compared exactly (the enclosure of an exact model must not be rounded to doubles)
-    tol = 0 if case.get("ctype") in ("fraction", "fraction_thirds", "bigint") else 1e-9
+    tol = 0 if case.get("ctype") in ("fraction", "fraction_thirds", "bigint", "dyadic_up", "dyadic_down") else 1e-9
     if lo > min(vals) + tol or hi < max(vals) - tol:
         return Fail("enclosure (%r, %r) does not contain [%r, %r]" % (lo, hi, min(vals), max(vals)), key="enclosure")
     if all(not k or not v for k, v in dict(M).items()) and not (lo == hi == dict(M).get((), 0)):
